@@ -36,6 +36,7 @@ RT_FORM = 1e-9      # Newmark update formulas, relative to the sum of the magnit
 RT_EN = 1e-9        # |E_n - E_0| <= RT_EN * E_0
 EN_FLOOR = 1e-12    # ... + EN_FLOOR * (||K||_F |U|^2 + ||M||_F |V|^2): rounding of evaluating E itself
 RT_FF = 1e-10       # rigid translation
+ROUND_AMP = 1e3 * 2.0 ** -52   # x sum over the steps so far of cond(M/(beta dt^2) + K) = 1 + beta dt^2 omega_max^2: added to RT_MODAL / RT_FF
 RT_MASS = 1e-12     # sum of consistent mass vs rho * area * dim
 NEWTON_TOL = 1e-10  # the harness minimiser must reach ||grad algorithmic energy|| <= NEWTON_TOL * scale, else conv = False
 
@@ -283,7 +284,8 @@ def step_obs(md, old, new, dt, E0, ff):
     else:
         out["en"] = "NA"
     if ff is not None:
-        Ur, Vr, t, dtmin = ff          # U(0), V(0), time after this step
+        Ur, Vr, t, dtmin = ff[:4]      # U(0), V(0), time after this step
+        RT_FF = globals()["RT_FF"] + (ff[4] if len(ff) > 4 else 0.0)      # + rounding amplified by the step's conditioning
         eu = inf(U1 - (Ur + t * Vr))
         ev = inf(V1 - Vr)
         _ratio("free_flight", eu, RT_FF * (inf(Ur) + t * inf(Vr)))
@@ -320,6 +322,8 @@ def run_modal(md, beh, seed, tid, minimiser="newton"):
     S = max([1.0] + [abs(float(fr(s[q]))) for s in beh["steps"] for q in ("u", "v", "a", "up", "vp")])
     allow = RT_MODAL * S
     Mphi = M @ phi
+    whi2 = float(md.eig()[0][-1])      # largest eigenvalue of (K, M): omega_max^2
+    condsum = 0.0
 
     def amp(x, sc):
         return float(Mphi @ x) / sc
@@ -340,6 +344,11 @@ def run_modal(md, beh, seed, tid, minimiser="newton"):
         dt = float(fr(s["dt"])) / om
         t += dt
         dtmin = dt if dtmin is None else min(dtmin, dt)
+        # no arithmetic solves (M/(beta dt^2) + K) x = b more accurately than eps * cond, cond = 1 + beta dt^2 omega_max^2
+        # (a rigid mode has an arbitrary time scale: dt * omega_max reaches 1e8 on the stiff models)
+        condsum += 1.0 + md.beta * dt * dt * whi2
+        rnd = ROUND_AMP * condsum
+        allow = (RT_MODAL + rnd) * S
         Up, Vp = md.dyn.predict(np.array(U), np.array(V), np.array(A), dt)
         Up, Vp = onp.asarray(Up), onp.asarray(Vp)
         ev.append(dict(op="Predict", dt=[int(s["dt"][0]), int(s["dt"][1])],
@@ -350,7 +359,7 @@ def run_modal(md, beh, seed, tid, minimiser="newton"):
         Vn, An = md.dyn.correct(np.array(Un - Up), np.array(Vp), np.array(A), dt)
         Vn, An = onp.asarray(Vn), onp.asarray(An)
         o = step_obs(md, (U, V, A), (Un, Vn, An), dt, E0,
-                     (ffref[0], ffref[1], t, dtmin) if ffref is not None else None)
+                     (ffref[0], ffref[1], t, dtmin, rnd) if ffref is not None else None)
         o.pop("_E", None)
         on_mode = max(off(Un, c), off(Vn, c * om), off(An, c * om * om)) <= allow
         _ratio("on_mode", max(off(Un, c), off(Vn, c * om), off(An, c * om * om)), allow)
@@ -410,7 +419,7 @@ def run_field(md, ftype, nsteps, seed, tid, minimiser="newton"):
     E0 = (float(md.ke(np.array(V))) + float(md.se(np.array(U)))) if trap_lin else None
     mc = md.mass_codes()
     ev = [dict(op="Mass", sumM=mc["sumM"], sumEl=mc["sumEl"])]
-    t, dtmin = 0.0, None
+    t, dtmin, condsum = 0.0, None, 0.0
     lo, hi = (0.02, 20.0) if md.linear else (0.02, 1.0)
     if ftype == "energy":
         lo = 0.05         # keeps the rounding amplification eps |U| / (beta dt |V|) of correct() two orders below RT_EN
@@ -418,6 +427,7 @@ def run_field(md, ftype, nsteps, seed, tid, minimiser="newton"):
         dt = 10 ** rng.uniform(math.log10(lo), math.log10(hi)) / (om_ref if (not md.linear or rng.random() < 0.5) else om_hi)
         t += dt
         dtmin = dt if dtmin is None else min(dtmin, dt)
+        condsum += 1.0 + md.beta * dt * dt * float(w[-1])
         Up, Vp = md.dyn.predict(np.array(U), np.array(V), np.array(A), dt)
         Up, Vp = onp.asarray(Up), onp.asarray(Vp)
         ev.append(dict(op="Predict", dt=[1, 1], cup="NA", cvp="NA"))
@@ -425,7 +435,8 @@ def run_field(md, ftype, nsteps, seed, tid, minimiser="newton"):
         ev.append(dict(op="Minimise", conv=bool(conv), cum="NA"))
         Vn, An = md.dyn.correct(np.array(Un - Up), np.array(Vp), np.array(A), dt)
         Vn, An = onp.asarray(Vn), onp.asarray(An)
-        o = step_obs(md, (U, V, A), (Un, Vn, An), dt, E0, (ff[0], ff[1], t, dtmin) if ff is not None else None)
+        o = step_obs(md, (U, V, A), (Un, Vn, An), dt, E0,
+                     (ff[0], ff[1], t, dtmin, ROUND_AMP * condsum) if ff is not None else None)
         o.pop("_E", None)
         ev.append(dict(op="Correct", ref=[[0, 1], [0, 1], [0, 1]], cu="NA", cv="NA", ca="NA", onMode=True, **o))
         U, V, A = Un, Vn, An
@@ -515,6 +526,9 @@ def main(tier, replay=None):
         "energy: |E_n - E_0| <= %g E_0 + %g (||K||_F |U|^2 + ||M||_F |V|^2) (trapezoidal + linear elastic; E from the library's "
         "output energies; the second term is the rounding of evaluating E, needed when E_0 ~ 0 e.g. a pure translation)" % (RT_EN, EN_FLOOR),
         "rigid translation: |U_n - U_0 - t_n V_0| <= %g (|U_0| + t_n |V_0|), V likewise" % RT_FF,
+        "modal and rigid-translation allowances grow by %.1e * sum over the steps so far of (1 + beta dt^2 omega_max^2): the "
+        "conditioning of the step's linear system (harness Newton or library trust region) bounds what any arithmetic "
+        "can deliver; a rigid mode on a stiff model has dt * omega_max up to 1e8" % ROUND_AMP,
         "mass: |sum M - rho*Lx*Ly*2| <= %g relative (Hessian of the library kinetic energy; compute_element_masses)" % RT_MASS,
         "modal amplitudes: |phi^T M X / scale - num/den| <= %g max(1, largest amplitude of the behaviour); num/den printed "
         "by TLC, NewmarkTrace.tla re-derives them (oracle_binding)" % RT_MODAL,
